@@ -7,6 +7,7 @@ import (
 	"fmt"
 	"strings"
 
+	"ergo.services/ergo/act"
 	"ergo.services/ergo/gen"
 	"verif.local/vsched"
 	"verif.local/vsched/harn"
@@ -269,6 +270,92 @@ func init() {
 			w.n.Kill(pid)
 		})
 	})
+	// a graceful node stop is a shutdown from the parent for every process, also for one that traps exits and was
+	// spawned by another process: it terminates with that reason and is not handed the signal as a message
+	c05Scenario("node-stop-trapping-child-of-a-process", c05opt{qb: 1, tb: 2, causes: []string{"shutdown"}, mustEnd: true, extra: func(w *World) {
+		for _, l := range w.recs["R"].log {
+			if strings.HasPrefix(l, "M:exitpid(") {
+				w.ex.Fail("parent-exit-as-message", "the shutdown of the node reached a trapping process as an ordinary message: log=%v", w.recs["R"].log)
+			}
+		}
+	}}, func(w *World) {
+		w.spawnProbe("PARENT", probeCfg{}, gen.ProcessOptions{})
+		r := &rec{name: "R"}
+		w.recs["R"] = r
+		w.Do("PARENT", func(p *probe) error {
+			pid, err := p.Spawn(func() gen.ProcessBehavior { return &probe{} }, gen.ProcessOptions{}, probeCfg{rec: r, trap: true})
+			if err != nil {
+				panic(err)
+			}
+			w.pids["R"] = pid
+			return nil
+		})
+		w.ex.Thread("STOP", func() { w.n.Stop() })
+		w.ex.Thread("S2", func() { w.n.Send(w.pids["R"], "b") })
+	})
+	// a supervisor told to stop by an exit signal ends with THAT reason - for its callback and for its observers -
+	// also when its last child, busy at the time, is killed meanwhile and so ends with another reason
+	for tn, typ := range map[string]act.SupervisorType{"ofo": act.SupervisorTypeOneForOne, "afo": act.SupervisorTypeAllForOne, "rfo": act.SupervisorTypeRestForOne, "sofo": act.SupervisorTypeSimpleOneForOne} {
+		tn, typ := tn, typ
+		harn.Register(harn.Scenario{Property: "C05", Name: "supervisor-" + tn + "-stopped-by-signal-last-child-killed", Run: func(c *harn.Ctx) *harn.Result {
+			return harn.Explore(c, harn.Sched{QuickBound: 1, ThoroughBound: 2, Preempt: false, Cache: true, HorizonS: 30, Body: nodeBody(func(w *World) {
+				t := newTree(w)
+				t.factories = map[string]gen.ProcessFactory{}
+				f := t.sup("S", typ, "w1", "w2")
+				w.Setup("start", func() {
+					if _, err := w.n.Spawn(f, gen.ProcessOptions{}); err != nil {
+						panic(err)
+					}
+				})
+				if typ == act.SupervisorTypeSimpleOneForOne {
+					for _, m := range []string{"w1", "w2"} {
+						m := m
+						w.nsetup++
+						w.Setup(fmt.Sprintf("startchild%d", w.nsetup), func() { w.n.Send(w.pids["S"], startChildMsg{m}) })
+					}
+				}
+				o := w.spawnObserver("O")
+				w.Do("O", func(p *probe) error {
+					if err := p.LinkPID(w.pids["S"]); err != nil {
+						panic(err)
+					}
+					return p.MonitorPID(w.pids["S"])
+				})
+				g := &vsched.Gate{}
+				w.Setup("park", func() { w.n.Send(w.pids["w2"], g) })
+				// the signal comes from a process that is not the supervisor's parent: the supervisor stops its children
+				// first and then ends with the signal's reason
+				// (reason STOP: no child ends with that reason on its own)
+				errStop := errors.New("STOP")
+				spid := w.pids["S"]
+				w.spawnProbe("Z", probeCfg{onMsg: func(p *probe, from gen.PID, m any) error {
+					p.SendExit(spid, errStop)
+					return nil
+				}}, gen.ProcessOptions{})
+				w.ex.Thread("X", func() { w.n.Send(w.pids["Z"], "go") })
+				w.ex.ThreadLow("K", func() { w.n.Kill(w.pids["w2"]) })
+				w.ex.ThreadLow("G", func() { g.Open() })
+				w.Check = func() {
+					if t.anyAlive("S") {
+						w.ex.Fail("not-terminated", "the supervisor got an exit signal (reason STOP) and is still running")
+						return
+					}
+					if got := fmt.Sprint(t.termOf["S"]); got != "[STOP]" {
+						w.ex.Fail("wrong-reason", "the supervisor was stopped by an exit signal with reason STOP; its Terminate callback was given %s", got)
+					}
+					for _, nf := range o.notifs {
+						if !strings.HasSuffix(nf, ":STOP") {
+							w.ex.Fail("wrong-reason", "the supervisor was stopped by an exit signal with reason STOP; its observer was told %q", nf)
+						}
+					}
+					if len(o.notifs) != 2 {
+						w.ex.Fail("observer-count", "the supervisor ended; its linked and monitoring observer got %v", o.notifs)
+					}
+					w.Out("term=%v notifs=%v", t.termOf["S"], o.notifs)
+				}
+			})})
+		}})
+	}
 	// pairs of causes racing
 	pair := func(name string, causes []string, a, b func(w *World, pid gen.PID)) {
 		c05Scenario(name, c05opt{qb: 2, tb: 3, causes: causes, mustEnd: true}, func(w *World) {
